@@ -30,7 +30,7 @@ def main():
         if fn is None:
             continue
         for op, desc, k, how in mutants_of(fn):
-            if op == r["operator"] and desc == r["what"]:
+            if op == r["operator"] and desc == r["what"] and (r.get("k") is None or r["k"] == k):
                 jobs.append((r["file"], r["function"], op, desc, k, how, PROPS_OF_FILE.get(r["file"], ALL_PROPS)))
     print(len(jobs), "suite-passing survivors re-checked")
     killed = und = 0
